@@ -309,6 +309,32 @@ pub fn parse_currency_non_commodity(input: &str) -> Result<String, ParseError> {
 
 /// Parse amount with optional decimal places
 pub fn parse_amount(input: &str) -> Result<f64, ParseError> {
+    // A SWIFT amount is a plain decimal: digits with at most one decimal separator and at
+    // least one integer digit. Checked here because str::parse::<f64> alone would also take
+    // signs, exponents, "NaN", "inf" and a missing integer part.
+    let mut seen_separator = false;
+    let mut integer_digits = 0;
+    for b in input.bytes() {
+        match b {
+            b'0'..=b'9' => {
+                if !seen_separator {
+                    integer_digits += 1;
+                }
+            }
+            b',' | b'.' if !seen_separator => seen_separator = true,
+            _ => {
+                return Err(ParseError::InvalidFormat {
+                    message: format!("Invalid amount format: '{}' is not a decimal number", input),
+                });
+            }
+        }
+    }
+    if integer_digits == 0 {
+        return Err(ParseError::InvalidFormat {
+            message: format!("Invalid amount format: '{}' has no integer digit", input),
+        });
+    }
+
     // Remove any commas (European decimal separator handling)
     let normalized = input.replace(',', ".");
 
@@ -387,8 +413,35 @@ pub fn validate_amount_decimals(amount: f64, currency: &str) -> Result<(), Parse
 /// - Decimal precision exceeds currency limit (C03)
 pub fn parse_amount_with_currency(input: &str, currency: &str) -> Result<f64, ParseError> {
     let amount = parse_amount(input)?;
-    validate_amount_decimals(amount, currency)?;
+
+    // Count the decimals as written (trailing zeros aside), not from the f64: the binary
+    // value of e.g. 123456789,05 prints as ...04999999 and would look like ten decimals.
+    let max_decimals = get_currency_decimals(currency) as usize;
+    let decimal_places = input
+        .find([',', '.'])
+        .map(|p| input[p + 1..].trim_end_matches('0').len())
+        .unwrap_or(0);
+    if decimal_places > max_decimals {
+        return Err(ParseError::InvalidFormat {
+            message: format!(
+                "Amount has {} decimal places but currency {} allows maximum {} (Error code: C03)",
+                decimal_places, currency, max_decimals
+            ),
+        });
+    }
+
     Ok(amount)
+}
+
+/// Format an amount that has no currency of its own (fields 19, 61, 37H): at least
+/// `min_decimals` decimals, and as many more as the value needs, so that no digit is lost
+pub fn format_swift_amount_min_decimals(amount: f64, min_decimals: usize) -> String {
+    let shortest = format!("{}", amount);
+    let needed = match shortest.find('.') {
+        Some(p) if !shortest.contains('e') && !shortest.contains('E') => shortest.len() - p - 1,
+        _ => 0,
+    };
+    format_swift_amount(amount, needed.max(min_decimals))
 }
 
 /// Format amount for SWIFT output with comma decimal separator
